@@ -630,5 +630,13 @@ func ThreadID() int {
 	return -1
 }
 
+// Steps returns the number of scheduling steps so far (a logical clock for harness oracles).
+func Steps() int {
+	if s := cur; s != nil {
+		return s.steps
+	}
+	return 0
+}
+
 // Dead reports whether the execution has ended (used by shims to become no-ops).
 func Dead() bool { return cur == nil || cur.dead }
